@@ -172,19 +172,28 @@ func TestVerifC14Handler(t *testing.T) {
 			_ = m.state.Add(ctx, twin, payload)
 		}
 		_ = m.state.Add(ctx, priv, nil)
-		time.Sleep(30 * time.Millisecond) // 1ns retry delay: a retried job runs through its attempts right away
-		retries := -1
-		_ = m.db.ReadShelf(ctx, "_private_jobs", func(r stoabs.Reader) error {
-			v, err := r.Get(stoabs.BytesKey(priv.Ref().Slice()))
-			if err == nil {
-				ev := struct {
-					Retries int `json:"retries"`
-				}{}
-				_ = json.Unmarshal(v, &ev)
-				retries = ev.Retries
+		// 1ns retry delay: a retried job runs through its attempts right away. Wait until the job has settled in one of
+		// the three observable classes: gone (done), retries = 21 (fatal), retries >= 2 (retried)
+		retries := 0
+		deadline := time.Now().Add(5 * time.Second)
+		for {
+			retries = -1
+			_ = m.db.ReadShelf(ctx, "_private_jobs", func(r stoabs.Reader) error {
+				v, err := r.Get(stoabs.BytesKey(priv.Ref().Slice()))
+				if err == nil {
+					ev := struct {
+						Retries int `json:"retries"`
+					}{}
+					_ = json.Unmarshal(v, &ev)
+					retries = ev.Retries
+				}
+				return nil
+			})
+			if retries == -1 || retries == 21 || retries >= 2 || time.Now().After(deadline) {
+				break
 			}
-			return nil
-		})
+			time.Sleep(time.Millisecond)
+		}
 		dlq := -1
 		for _, d := range m.p.Diagnostics() {
 			if d.Name() == "payload_fetch_dlq" {
